@@ -128,6 +128,14 @@ CHECKS = {
             'be reported.',
             'Only the boundary window is enumerated (the interior is C01/C04).',
             'bounded-exhaustive boundary enumeration with region-tagged image content'),
+    'C13': ('exploration', '4 C13',
+            'Every variant x geometry x container (plain and .gz) x catalogue total; a Watford disc with a file at every start '
+            'sector; Acorn discs whose sector-2 file carries every subset of the 8 Watford marker bytes; Acorn discs whose '
+            'file covers sector 16 with every incomplete (and the complete) Opus table; catalogue-like bodies at the side-2 '
+            'offsets the prober consults; each identified format/geometry compared with a reference recogniser written from '
+            'the property, and differentially against the same disc with other file bodies.',
+            '16-sector geometries excluded as undecidable; identification observed through --verbose/--show-config.',
+            'bounded-exhaustive enumeration of marker-imitating discs against a reference recogniser, plus differential runs'),
 }
 
 NA_REASON = 'check not built yet (work in progress; see DESIGN.md section 4)'
